@@ -3,6 +3,9 @@
 tier=${1:-quick}; shift
 props=${@:-C01 C02 C03 C04 C05 C06 C07 C08 C09 C10 C11 C12 C13 C14 C15 C16 C17 C18}
 cd /verif
+export VERIF_SHARE=/verif/.work/sweep-$$
+rm -rf $VERIF_SHARE; mkdir -p $VERIF_SHARE
+trap 'rm -rf $VERIF_SHARE' EXIT
 for p in $props; do
   s=$(date +%s)
   out=$(./check "$p" --tier "$tier" 2>&1); rc=$?
